@@ -14,8 +14,11 @@ def run(tier, corrupt=0):
     vlib.build_harness()
     common.mc_phase(c, "MC_SortedVec")
     tables = os.path.join(vlib.WORK, "c20_tables.json")
-    vlib.tlc_ok("Gen_SortedVec", env={"OUT": tables})
-    s = common.harness_replay(c, "sortedvec", tables)
+    long_cases = os.path.join(vlib.WORK, "c20_long.json")
+    vlib.tlc_ok("Gen_SortedVec", env={"OUT": tables, "OUT2": long_cases}, heap="6g")
+    s = common.harness_replay(c, "sortedvec", tables, ["--long", long_cases])
+    c.setv("long_structured_pairs", "5832 triples of runs (owner left / right / both x lengths 1, 16, 17, 32, 64, 65) + 35 interleavings of depth "
+                                    "8..100 over 5 lower parts, emitted by TLC with their set union; both operand orders and a reversed input")
     br = s["extra"]["branches"]
     if any(br.get(b, 0) == 0 for b in ("right_empty", "left_empty", "append", "prepend", "pop")):
         raise vlib.ToolError("a branch of union is not covered by the generated cases: %s" % br)
